@@ -7,9 +7,10 @@ from lib.core import existing_modules
 from props import c12
 
 ID = "C18"
-LEVEL = "other"
-LEAN_MODULES = existing_modules(["Sonic.Props.C18", "Sonic.Props.C12"]) + ["Sonic.Props.C14", "Sonic.Spec.Json"]
-REQUIRED_THEOREMS = []
+LEVEL = "proof"
+LEAN_MODULES = ["Sonic.Props.C18", "Sonic.Props.C12"]
+REQUIRED_THEOREMS = ["Sonic.Props.C18." + n for n in ["C18_eq", "C18_eq_ordered", "C18_equiv", "C18_repr_independent", "C18_copy", "C18_reparse",
+                                                         "C18_asymmetric_dups"]]
 CONFIGS = [("avx2", "prod"), ("avx2", "san"), ("sse", "prod"), ("dyn", "prod")]
 CONFIGS_THOROUGH = CONFIGS + [("sse", "san")]
 RULE = ("pairs of documents built through different histories: the same value assembled member by member in two documents with members "
@@ -23,7 +24,11 @@ EXPLANATION = ("Expected results come from an independent value-equality functio
                "equivalence laws, representation independence) are listed in the evidence when proved.")
 ASSUMPTIONS = ["documents compared have no duplicate keys (the property's hypothesis)"]
 TRUSTED = ["Python value-equality mirror as L1 oracle"]
-LEVEL_TEXT = "Theorems as listed in the evidence + differential correspondence of == on pairs built through different histories."
+LEVEL_TEXT = ("Machine-checked proof (Lean 4): the literal model of operator== equals the statement's value equality for duplicate-free "
+              "documents (C18_eq), which is an equivalence relation (C18_equiv), depends only on the abstract value - not capacity, map, "
+              "ownership kind (C18_repr_independent) -, holds for deep copies (C18_copy) and for the re-parsed serialisation (C18_reparse, "
+              "conditional on the FtoaFacts hypothesis of C06 for doubles); the duplicate-key hypothesis is shown necessary by a checked "
+              "example. The model is tied to the compiled code by the three-way differential of the DOM protocol.")
 LEVEL_NOTE = "Trusted: Lean kernel; standard axioms; Python mirror; harness."
 TECHNIQUE = "Lean 4 theorem (operator== = JSON value equality) + differential correspondence"
 
